@@ -121,7 +121,7 @@ class ByteArray(SimpleModel):
         joiner = type(value)()
         try:
             return (b64decode(joiner.join(value)),)
-        except TypeError:
+        except (TypeError, ValueError):  # binascii.Error is a ValueError
             raise ValidationError(value)
 
     @classmethod
@@ -142,7 +142,7 @@ class ByteArray(SimpleModel):
             else:
                 return (urlsafe_b64decode(value),)
 
-        except TypeError as e:
+        except (TypeError, ValueError) as e:  # binascii.Error is a ValueError
             logger.exception(e)
 
             if len(value) < 100:
@@ -156,9 +156,12 @@ class ByteArray(SimpleModel):
 
     @classmethod
     def from_hex(cls, value):
-        if isinstance(value, (list, tuple)):
-            value = _bytes_join(value)
-        return (unhexlify(value),)
+        try:
+            if isinstance(value, (list, tuple)):
+                value = _bytes_join(value)
+            return (unhexlify(value),)
+        except (TypeError, ValueError):  # binascii.Error is a ValueError
+            raise ValidationError(value)
 
 
 def _default_binary_encoding(b):
